@@ -803,6 +803,8 @@ def prep_iraf(rng, scene):
     d.update(fwhm=float(rng.uniform(2.5, 5.0)), sigma_radius=float(_opt(rng, 1.5, 2.0)),
              minsep_fwhm=float(_opt(rng, 2.5, 1.5)), min_separation=_opt(rng, None, None, float(rng.uniform(3.0, 8.0))),
              xycoords=None)
+    if rng.random() < 0.15:
+        d['xycoords'] = XY(np.rint(scene['src'].v))
     return d
 
 
@@ -1388,6 +1390,7 @@ SPEC_CENTROID = {'com': K('cxy', per_row=False), 'quadratic': K('cxy', per_row=F
                  'quadratic_peak': K('cxy', per_row=False), 'quadratic_search': K('cxy', per_row=False),
                  '1dg': K('cxy', per_row=False, atol=GFIT_ATOL), '2dg': K('cxy', per_row=False, atol=GFIT_ATOL),
                  'sources_com': K('xy', per_row=False), 'sources_quadratic': K('xy', per_row=False),
+                 'sources_quadratic_peak': K('xy', per_row=False), 'sources_quadratic_search': K('xy', per_row=False),
                  'sources_2dg': K('xy', per_row=False, atol=GFIT_ATOL)}
 
 
@@ -1407,9 +1410,11 @@ def prep_centroid(rng, scene):
     return dict(center=XY(cen), half=half, use_mask=_use(rng, 0.5), use_error=_use(rng, 0.5),
                 fit_boxsize=Pair((int(_opt(rng, 3, 5, 7)), int(_opt(rng, 3, 5, 7)))),
                 search_boxsize=_opt(rng, None, Pair((int(_opt(rng, 3, 5)), int(_opt(rng, 5, 7))))),
-                peak_off=XY(rng.integers(-1, 2, 2).astype(float)),
+                peak_off=Pair((int(rng.integers(-1, 2)), int(rng.integers(-1, 2)))),     # (dy, dx) offset, not a position
                 search2=Pair((int(_opt(rng, 3, 5)), int(_opt(rng, 5, 7)))),
                 box_size=box, footprint=fp, pos=XY(src + rng.normal(0, 0.6, src.shape)),
+                # full-frame peak guesses forwarded through centroid_sources(xpeak=, ypeak=) (one call per source)
+                peaks=XY(np.rint(src) + rng.integers(-1, 2, src.shape)),
                 fits=_use(rng, 0.5))
 
 
@@ -1425,7 +1430,7 @@ def run_centroid(s, o):
     out = {'com': np.asarray(centroid_com(data, mask=mask))}
     out['quadratic'] = np.asarray(centroid_quadratic(data, fit_boxsize=o['fit_boxsize'],
                                                      search_boxsize=o['search_boxsize'], mask=mask))
-    px, py = hx + o['peak_off'][0], hy + o['peak_off'][1]
+    px, py = hx + o['peak_off'][1], hy + o['peak_off'][0]
     out['quadratic_peak'] = np.asarray(centroid_quadratic(data, xpeak=int(px), ypeak=int(py),
                                                           fit_boxsize=o['fit_boxsize'], mask=mask))
     def sane(c, shape, origin=(0.0, 0.0)):
@@ -1450,6 +1455,19 @@ def run_centroid(s, o):
     x, y = centroid_sources(s['data'], pos[:, 0], pos[:, 1], mask=full_mask,
                             centroid_func=centroid_quadratic, **kw)
     out['sources_quadratic'] = np.column_stack([x, y])
+    pk = np.asarray(o['peaks'])
+    qp, qs = [], []
+    for i in range(min(len(pos), 4)):
+        x, y = centroid_sources(s['data'], pos[i:i + 1, 0], pos[i:i + 1, 1], mask=full_mask,
+                                centroid_func=centroid_quadratic, xpeak=int(pk[i, 0]), ypeak=int(pk[i, 1]),
+                                fit_boxsize=3, **kw)
+        qp.append([x[0], y[0]])
+        x, y = centroid_sources(s['data'], pos[i:i + 1, 0], pos[i:i + 1, 1], mask=full_mask,
+                                centroid_func=centroid_quadratic, xpeak=int(pk[i, 0]), ypeak=int(pk[i, 1]),
+                                fit_boxsize=3, search_boxsize=o['search2'], **kw)
+        qs.append([x[0], y[0]])
+    out['sources_quadratic_peak'] = np.array(qp)
+    out['sources_quadratic_search'] = np.array(qs)
     if o['fits']:
         x, y = centroid_sources(s['data'], pos[:1, 0], pos[:1, 1], mask=full_mask,
                                 centroid_func=centroid_2dg, **kw)
@@ -1764,7 +1782,7 @@ TABLE = [
        mech_fn=mech_profile),
     EP('make_model_image', prep_model, run_model, SPEC_MODEL, {TR, RP},
        must_reach=['photutils.datasets.images:make_model_image'], arrays=()),
-    EP('centroids', prep_centroid, run_centroid, SPEC_CENTROID, {TP, RP},
+    EP('centroids', prep_centroid, run_centroid, SPEC_CENTROID, {TR, TP, RP},
        must_reach=['photutils.centroids.core:centroid_com', 'photutils.centroids.core:centroid_quadratic',
                    'photutils.centroids.core:centroid_sources', 'photutils.centroids.gaussian:centroid_2dg'],
        arrays=('data', 'error'), quantity=False),
